@@ -35,7 +35,7 @@ def gen_itf_init(rng, i):
         a = [{"tag": 1, "vars": c05.sub_nonempty(rng, inv)}] if inv and rng.random() < 0.7 else []
         g = [{"tag": 2, "vars": c05.sub_nonempty(rng, inv + outv)}] if inv + outv and rng.random() < 0.8 else []
         if not valid:
-            fault = rng.choice(["dup_in", "dup_out", "dup_many", "overlap", "stray_a", "stray_g", "none"])
+            fault = rng.choice(["dup_in", "dup_out", "dup_many", "dup_many", "dup_many", "overlap", "stray_a", "stray_g", "none"])
             if fault == "dup_in" and inv:
                 inv = inv + [rng.choice(inv)]
             elif fault == "dup_out" and outv:
